@@ -51,6 +51,96 @@ theorem bw_inv {α} [Add α] {gy gx g : Tensor α} {F : R Moves}
         have ⟨h1, h2⟩ := runAdd_inv h
         exact ⟨checkDevice_inv hc, checkDevice_inv hc2, m, rfl, h1, h2⟩
 
+theorem pickFw_inv {α} {x y : Tensor α} {ids : List Nat} {dim : Nat} {raw : Nat → α}
+    (h : pickFw x ids dim raw = .ok y) :
+    x.loc = .here ∧ ∃ ys m, Front.pickFw x.shape ids dim = .ok (ys, m) ∧ m.InBounds x.shape.size ys.size ∧
+      m.WritesAll ys.size ∧ y = ⟨ys, scatterSet m.didx m.sidx x.data m.count raw, .here⟩ := by
+  unfold pickFw at h
+  cases hc : checkDevice x with
+  | error e => simp [hc, bind, Except.bind] at h
+  | ok u =>
+    cases hF : Front.pickFw x.shape ids dim with
+    | error e => simp [hc, hF, bind, Except.bind] at h
+    | ok p =>
+      obtain ⟨ys, m⟩ := p
+      simp only [hc, hF, bind, Except.bind] at h
+      split at h
+      · cases h
+      · have ⟨h1, h2, h3⟩ := runSet_inv h
+        exact ⟨checkDevice_inv hc, ys, m, rfl, h1, h2, h3⟩
+
+theorem pickBw_inv {α} [Add α] {gy gx g : Tensor α} {ids : List Nat} {dim : Nat}
+    (h : pickBw gy ids dim gx = .ok g) :
+    gy.loc = .here ∧ gx.loc = .here ∧ ∃ m, Front.pickBw gy.shape gx.shape ids dim = .ok m ∧
+      m.InBounds gy.shape.size gx.shape.size ∧
+      g = ⟨gx.shape, scatterAdd m.didx m.sidx gy.data m.count gx.data, .here⟩ := by
+  unfold pickBw at h
+  cases hc : checkDevice gy with
+  | error e => simp [hc, bind, Except.bind] at h
+  | ok u =>
+    cases hc2 : checkDevice gx with
+    | error e => simp [hc, hc2, bind, Except.bind] at h
+    | ok u2 =>
+      cases hF : Front.pickBw gy.shape gx.shape ids dim with
+      | error e => simp [hc, hc2, hF, bind, Except.bind] at h
+      | ok m =>
+        simp only [hc, hc2, hF, bind, Except.bind] at h
+        split at h
+        · cases h
+        · have ⟨h1, h2⟩ := runAdd_inv h
+          exact ⟨checkDevice_inv hc, checkDevice_inv hc2, m, rfl, h1, h2⟩
+
+theorem batchPickFw_inv {α} {x y : Tensor α} {ids : List Nat} {raw : Nat → α}
+    (h : batchPickFw x ids raw = .ok y) :
+    x.loc = .here ∧ ∃ ys m, Front.batchPickFw x.shape ids = .ok (ys, m) ∧ m.InBounds x.shape.size ys.size ∧
+      m.WritesAll ys.size ∧ y = ⟨ys, scatterSet m.didx m.sidx x.data m.count raw, .here⟩ := by
+  unfold batchPickFw at h
+  cases hc : checkDevice x with
+  | error e => simp [hc, bind, Except.bind] at h
+  | ok u =>
+    cases hF : Front.batchPickFw x.shape ids with
+    | error e => simp [hc, hF, bind, Except.bind] at h
+    | ok p =>
+      obtain ⟨ys, m⟩ := p
+      simp only [hc, hF, bind, Except.bind] at h
+      split at h
+      · cases h
+      · have ⟨h1, h2, h3⟩ := runSet_inv h
+        exact ⟨checkDevice_inv hc, ys, m, rfl, h1, h2, h3⟩
+
+theorem batchPickBw_inv {α} [Add α] {gy gx g : Tensor α} {ids : List Nat}
+    (h : batchPickBw gy ids gx = .ok g) :
+    gy.loc = .here ∧ gx.loc = .here ∧ ∃ m, Front.batchPickBw gy.shape gx.shape ids = .ok m ∧
+      m.InBounds gy.shape.size gx.shape.size ∧
+      g = ⟨gx.shape, scatterAdd m.didx m.sidx gy.data m.count gx.data, .here⟩ := by
+  unfold batchPickBw at h
+  cases hc : checkDevice gy with
+  | error e => simp [hc, bind, Except.bind] at h
+  | ok u =>
+    cases hc2 : checkDevice gx with
+    | error e => simp [hc, hc2, bind, Except.bind] at h
+    | ok u2 =>
+      cases hF : Front.batchPickBw gy.shape gx.shape ids with
+      | error e => simp [hc, hc2, hF, bind, Except.bind] at h
+      | ok m =>
+        simp only [hc, hc2, hF, bind, Except.bind] at h
+        split at h
+        · cases h
+        · have ⟨h1, h2⟩ := runAdd_inv h
+          exact ⟨checkDevice_inv hc, checkDevice_inv hc2, m, rfl, h1, h2⟩
+
+/-- `(t / V) * ([B ≠ 1] * V) + t % V = t` for `t < V * B`: the batch stride of an
+operand that is not shared -/
+theorem hb_recompose {V B t : Nat} (ht : t < V * B) :
+    t / V * ((if B = 1 then 0 else 1) * V) + t % V = t := by
+  by_cases h : B = 1
+  · subst h
+    rw [Nat.mul_one] at ht
+    simp [Nat.div_eq_of_lt ht, Nat.mod_eq_of_lt ht]
+  · simp only [h, if_false, Nat.one_mul]
+    have := Nat.div_add_mod t V
+    rw [Nat.mul_comm]; exact this
+
 /-- a sequential writer leaves `src (sidx o)` at `o` -/
 theorem seqWrite_apply {α} {m : Moves} (hd : ∀ t, m.didx t = t) (src raw : Nat → α) {o : Nat} (ho : o < m.count) :
     scatterSet m.didx m.sidx src m.count raw o = src (m.sidx o) := by
